@@ -13,23 +13,24 @@ REPLAY_TARGET = os.environ.get("VERIF_REPLAY_TARGET", "/var/tmp/patronus-verif-r
 
 
 def parse_playback(out: str):
-    """first concrete playback test printed by `--concrete-playback=print` -> (list of byte lists, list of comments, check text)"""
-    m = re.search(r"```\n(.*?)```", out, re.S)
-    if not m:
-        return None
-    block = m.group(1)
-    vals, notes = [], []
-    for c, v in re.findall(r"//\s*(.*?)\n\s*vec!\[([0-9, ]*)\],", block):
-        notes.append(c.strip())
-        vals.append([int(x) for x in v.split(",") if x.strip()])
-    chk = re.search(r"Check for `(\w+)`: \"+(.*?)\"+\n", block)
-    return vals, notes, (chk.group(2) if chk else None)
+    """all concrete playback tests printed by `--concrete-playback=print` -> [(byte lists, comments, check class, check text)],
+    failed assertions first (cover properties also get a test: those are satisfying inputs, not counterexamples)"""
+    res = []
+    for block in re.findall(r"```\n(.*?)```", out, re.S):
+        vals, notes = [], []
+        for c, v in re.findall(r"//\s*(.*?)\n\s*vec!\[([0-9, ]*)\],", block):
+            notes.append(c.strip())
+            vals.append([int(x) for x in v.split(",") if x.strip()])
+        chk = re.search(r"Check for `(\w+)`: \"+(.*?)\"+\n", block)
+        res.append((vals, notes, chk.group(1) if chk else None, chk.group(2) if chk else None))
+    res.sort(key=lambda r: 0 if r[2] == "assertion" else (2 if r[2] == "cover" else 1))
+    return [r for r in res if r[2] != "cover"]
 
 
 def kani_playback(tree_crate: str, harness: str, timeout_s: int = 900):
     tgt = os.environ.get("VERIF_KANI_TARGET", "/var/tmp/patronus-verif-kani-target")
     env = dict(os.environ, CARGO_NET_OFFLINE="true", CARGO_TARGET_DIR=tgt)
-    cmd = ["cargo", "kani", "--harness", harness, "--exact", "-Z", "concrete-playback", "--concrete-playback=print", "--output-format", "terse"]
+    cmd = ["cargo", "kani", "--harness", harness, "-Z", "concrete-playback", "--concrete-playback=print", "--output-format", "terse"]
     p = subprocess.run(["bash", "-c", "ulimit -v 12000000; exec " + " ".join(cmd)], cwd=tree_crate, capture_output=True, text=True,
                        timeout=timeout_s, env=env)
     return parse_playback(p.stdout + "\n" + p.stderr), (p.stdout + p.stderr)[-1500:]
@@ -45,10 +46,18 @@ def replay_cmd(tree: str, package: str, harness: str, values) -> str:
 def run_replay(tree: str, package: str, harness: str, values, timeout_s: int = 1500):
     cmd = replay_cmd(tree, package, harness, values)
     p = subprocess.run(["bash", "-c", cmd], capture_output=True, text=True, timeout=timeout_s)
-    out = p.stdout + "\n" + p.stderr
+    err = p.stderr
+    if "\nthread '" in err:
+        err = err[err.index("\nthread '"):]
+    elif "warning: unexpected `cfg`" in err and "error" not in err:
+        err = ""
+    out = p.stdout + "\n" + err
+    if "running 1 test" in out:
+        out = out[out.index("running 1 test"):]
+    out = re.sub(r"stack backtrace:.*?(?=note: Some details|\Z)", "", out, flags=re.S)
     panicked = re.search(r"panicked at .*?:\n(.*)", out)
     invalid = "verif_replay: the recorded values violate" in out or "verif_replay: unknown harness" in out
-    built = "running 1 test" in out
+    built = out.startswith("running 1 test")
     return {"exit": p.returncode, "built": built, "reproduced": bool(built and p.returncode != 0 and panicked and not invalid),
             "panic": panicked.group(1).strip() if panicked else None, "output_tail": out[-1200:]}
 
@@ -72,15 +81,18 @@ def search(prop, o, repo: str, scratch: str):
     tree = os.path.join(scratch, "tree")
     t0 = time.time()
     pb, tail = kani_playback(os.path.join(tree, crate_rel), o.name)
-    if not pb or not pb[0]:
-        return {"reproduced": False, "reason": "Kani printed no concrete playback values", "kani_tail": tail}
-    values, notes, chk = pb
+    if not pb:
+        return {"reproduced": False, "reason": "Kani printed no concrete playback values for a failed check", "kani_tail": tail}
     package = crate_rel
-    r = run_replay(tree, package, o.name, values)
-    w = {"reproduced": r["reproduced"], "harness": o.name, "kani_values": values, "kani_value_notes": notes, "kani_check": chk,
-         "replay_panic": r["panic"], "replay_output_tail": r["output_tail"], "search_s": round(time.time() - t0, 1),
-         "how": "Kani concrete playback values fed to the same harness function running on the real code under `cargo test --cfg verif_replay`",
-         "replay": {"kind": "kl_injected", "unit": o.unit, "harness": o.name, "values": values, "package": package}}
+    w = None
+    for values, notes, cls, chk in pb[:4]:
+        r = run_replay(tree, package, o.name, values)
+        w = {"reproduced": r["reproduced"], "harness": o.name, "kani_values": values, "kani_value_notes": notes, "kani_check": chk,
+             "replay_panic": r["panic"], "replay_output": r["output_tail"], "search_s": round(time.time() - t0, 1),
+             "how": "Kani concrete playback values fed to the same harness function running on the real code under `cargo test --cfg verif_replay`",
+             "replay": {"kind": "kl_injected", "unit": o.unit, "harness": o.name, "values": values, "package": package}}
+        if r["reproduced"]:
+            break
     return w
 
 
